@@ -336,6 +336,12 @@ def kf_relative_entropy_loss(case):
     return case.get("loss") in ("re", "re_fast")
 
 
+def kf_constrained_param_nonisometric(case):
+    """C10-F2 (= C11-F2 seen through exact recovery): constrained parametrisation of POVM / measurement-process unknowns;
+    the variable -> stacked map is not an isometry, so the projected-gradient line search can collapse far from the optimum."""
+    return bool(case.get("flag")) and case.get("tomo") in ("povmt", "qmpt")
+
+
 # ----------------------------------------------------------------------------- exact recovery (backtracking)
 @st.composite
 def recovery_case(draw, tier):
@@ -389,7 +395,7 @@ FACETS = {
     "lossmin_physical": {
         "strategy": lossmin_case,
         "check": check_lossmin,
-        "budget": {"quick": {"examples": 160, "shards": 16}, "thorough": {"examples": 4000, "shards": 16}},
+        "budget": {"quick": {"examples": 160, "shards": 16}, "thorough": {"examples": 2000, "shards": 16}},
         "nontrivial": "few-shot or arbitrary data, or true object on the boundary",
         "min_nontrivial": 20,
     },
